@@ -121,6 +121,52 @@ def translate_pop_sites(path, repo_rel):
     return chunks, meta
 
 
+def translate_cache_clear(path, repo_rel):
+    """Does MoleculeIterator.__iter__ call self._clear_cache() before it touches the buffers (and at its end), and
+    what does _clear_cache reset?  Shape of _clear_cache is checked fail closed."""
+    src = open(path).read()
+    tree = ast.parse(src)
+    it = py2coq.find_function(tree, 'MoleculeIterator.__iter__')
+    cc = py2coq.find_function(tree, 'MoleculeIterator._clear_cache')
+    is_clear = lambda st: isinstance(st, ast.Expr) and ast.unparse(st.value) == 'self._clear_cache()'
+    body = _strip_doc(list(it.body))
+    at_start = False
+    for st in body:
+        if is_clear(st):
+            at_start = True
+            break
+        if isinstance(st, (ast.For, ast.While)) or any(
+                isinstance(n, ast.Attribute) and n.attr in ('molecules', 'molecules_per_cell', 'check_ejection_iter')
+                for n in ast.walk(st)) or any(isinstance(n, (ast.Yield, ast.YieldFrom)) for n in ast.walk(st)):
+            break
+    at_end = bool(body) and is_clear(body[-1])
+    ctr, flat, grouped = None, False, False
+    for n in ast.walk(cc):
+        if isinstance(n, ast.Assign) and len(n.targets) == 1:
+            t, v = ast.unparse(n.targets[0]), ast.unparse(n.value)
+            if t == 'self.check_ejection_iter':
+                if not (isinstance(n.value, ast.Constant) and isinstance(n.value.value, int)) or ctr is not None:
+                    raise Untranslatable('_clear_cache: check_ejection_iter reset outside subset: %s' % v)
+                ctr = n.value.value
+            elif t == 'self.molecules':
+                if v != '[]':
+                    raise Untranslatable('_clear_cache: self.molecules = %s' % v)
+                flat = True
+            elif t == 'self.molecules_per_cell':
+                if v.replace(' ', '') not in ('collections.defaultdict(list)', 'defaultdict(list)'):
+                    raise Untranslatable('_clear_cache: self.molecules_per_cell = %s' % v)
+                grouped = True
+    if ctr is None or not flat or not grouped:
+        raise Untranslatable('_clear_cache does not reset counter / flat list / dict (%r %r %r)' % (ctr, flat, grouped))
+    sha = hashlib.sha256(('\n'.join(ast.unparse(x) for x in body[:6]) + ast.unparse(cc)).encode()).hexdigest()
+    text = ('(* source: %s MoleculeIterator.__iter__ (line %d) and _clear_cache (lines %d-%d) sha256 %s *)\n'
+            'Definition iter_clears_at_start : bool := %s.\nDefinition iter_clears_at_end : bool := %s.\n'
+            'Definition clear_cache_counter : Z := %d.'
+            % (repo_rel, it.lineno, cc.lineno, cc.end_lineno, sha, 'true' if at_start else 'false',
+               'true' if at_end else 'false', ctr))
+    return text, {'source': repo_rel, 'lines': [cc.lineno, cc.end_lineno], 'sha256': sha, 'coq': 'iter_clears_at_start'}
+
+
 def regen_eject(out=None, repo=None):
     out = out or os.path.join(fw.COQ, 'Gen', 'GenEject.v')
     try:
@@ -135,6 +181,8 @@ def regen_eject(out=None, repo=None):
 
 def _regen_eject(out, repo):
     chunks, meta = translate_pop_sites(os.path.join(repo, ITER), ITER)
+    t, m = translate_cache_clear(os.path.join(repo, ITER), ITER)
+    chunks.append(t); meta.append(m)
     t, m = py2coq.translate_inline_test(
         os.path.join(repo, ITER), 'MoleculeIterator.__iter__', ['self.check_ejection_iter', 'self.check_eject_every'],
         {'self.check_eject_every is not None': 'has_every', 'self.check_ejection_iter': 'ctr',
@@ -462,6 +510,24 @@ class Prop(fw.PropBase):
     def all_schedules(base, n):
         return [dict(base, every=e, pooling=p) for p in (0, 1) for e in [None] + list(range(0, n + 1))]
 
+    @staticmethod
+    def std_histories(base, n):
+        return [{'cfg': dict(base, every=e, pooling=p), 'ks': ks}
+                for p in (0, 1) for e in (None, 0) for ks in ([1], [2, 0, 1])]
+
+    def add_histories(self, case, rng, full):
+        """iteration histories on ONE iterator object: passes abandoned after k yields (k = 0: generator never advanced),
+        then a complete pass"""
+        base = {k: case['cfgs'][0][k] for k in ('cache', 'radius', 'hd', 'yield_invalid')}
+        n = len(case['frags'])
+        hs = self.std_histories(base, n) if full else []
+        for p in (0, 1):
+            e = rng.choice([None, 0, rng.randint(0, n)])
+            hs.append({'cfg': dict(base, every=e, pooling=p),
+                       'ks': [rng.randint(0, n + 1) for _ in range(rng.choice([1, 1, 2]))]})
+        case['histories'] = hs
+        return case
+
     def corpus_cases(self):
         d = os.path.join(fw.VERIF, 'corpus', 'C07')
         out = []
@@ -516,7 +582,11 @@ class Prop(fw.PropBase):
             regime = ['pre', 'pre', 'prelag', 'wild'][k % 4]
             out.append(self.gen_case(self.rng, n, regime))
         out += self.directed(self.rng, 320 if quick else 4000)
+        for c in out:
+            self.add_histories(c, self.rng, full=True)
         ex = self.small_exhaustive(3 if quick else 4) + self.small_exhaustive_rel(3 if quick else 4)
+        for c in ex:
+            self.add_histories(c, self.rng, full=False)
         self.n_exhaustive = len(ex)
         return out + ex
 
@@ -634,9 +704,35 @@ class Prop(fw.PropBase):
             if a != b:
                 dis.append({'case': ci, 'cfg': cfg, 'frags': cases[ci]['frags'], 'cls': cases[ci]['cls'],
                             'model': a, 'impl': b, 'impl_error': res[ci]['runs'][case_cfg_index(cases[ci], cfg)]['error']})
+        # histories on one iterator object (mode 4): object state after every abandoned pass + the complete pass
+        hin, hexp, hidx = [], [], []
+        for ci, (case, r) in enumerate(zip(cases, res)):
+            if case['cls'] == 'CHIC':
+                continue
+            absf = r['abs']
+            for h, rec in zip(case.get('histories', []), r.get('histories', [])):
+                if rec['error'] is not None:
+                    continue
+                hin.append([cfg_val(h['cfg']), fw.to_val([f[:9] for f in absf]), h['ks']])
+                hexp.append([rec['states'], canon_run(rec['final'], absf)])
+                hidx.append((ci, h))
+        hout = fw.run_model('C07', 4, hin) if hin else []
+        n_dirty = 0
+        for (ci, h), m, e in zip(hidx, hout, hexp):
+            absf = res[ci]['abs']
+            mst = m[0]
+            if h['cfg']['pooling'] == 0:
+                mst = [[[mol for g in st[0] for mol in g[1]], st[1]] for st in mst]
+            mrun = [[[canon_mol(x, absf) for x in st] for st in m[1][0]], [canon_mol(x, absf) for x in m[1][1]], m[1][2]]
+            n_dirty += any(st[0] for st in e[0])
+            if mst != e[0] or mrun != e[1]:
+                dis.append({'case': ci, 'cfg': h['cfg'], 'history_ks': h['ks'], 'frags': cases[ci]['frags'], 'cls': cases[ci]['cls'],
+                            'model': [mst, mrun], 'impl': e, 'impl_error': None})
+        self.cov['histories_validated_against_impl'] = len(hin)
+        self.cov['histories_with_nonempty_buffer_left_by_an_abandoned_pass'] = n_dirty
         mpre = fw.run_model('C07', 1, [p[0] for p in pre_inputs])
         predis = [i for i, (m, p) in enumerate(zip(mpre, pre_inputs)) if m != p[1]]
-        self.cov['traces_validated_against_impl'] = len(inputs)
+        self.cov['traces_validated_against_impl'] = len(inputs) + len(hin)
         self.cov['disagreements'] = len(dis)
         idx = sorted(self.rng.sample(range(len(inputs)), min(100, len(inputs))))
         ok, nm, log = fw.vm_crosscheck('C07', 0, [(inputs[i], mout[i]) for i in idx])
@@ -712,6 +808,22 @@ def spec_violations(case, res):
             out.append(('early-eject', 'molecule %r was yielded after read %r although later read %r still matches it'
                         % (run['late'][0][1], run['late'][0][0], run['late'][0][2]) if run['late'][0][0] != 'error'
                         else 'late-join evaluation failed: %r' % (run['late'][0],), cfg))
+    fresh = {(c['every'], c['pooling']): partition(x) for c, x in zip(case['cfgs'], res['runs']) if x['error'] is None}
+    for h, rec in zip(case.get('histories', []), res.get('histories', [])):
+        cfg = h['cfg']
+        if rec['error'] is not None:
+            out.append(('exception', 'history %r: MoleculeIterator raised %s' % (h['ks'], rec['error']), cfg))
+            continue
+        wanted = sorted(f[0] for f in absf if f[1] or cfg['yield_invalid'])
+        pf = partition(rec['final'])
+        got = sorted(i for mol in pf for i in mol)
+        ref = fresh.get((cfg['every'], cfg['pooling']))
+        if got != wanted or (ref is not None and pf != ref):
+            out.append(('pass-depends-on-history',
+                        'one MoleculeIterator object (check_eject_every=%r, pooling_method=%d): passes abandoned after %r yielded '
+                        'molecules, then a complete pass yields molecules %r; a fresh iterator yields %r (every fragment exactly once: %r)'
+                        % (cfg['every'], cfg['pooling'], h['ks'], [list(x) for x in pf],
+                           [list(x) for x in ref] if ref is not None else None, wanted), dict(cfg, ks=h['ks'])))
     return out
 
 
@@ -769,7 +881,8 @@ def _shrink(self, case, cfg, key):
         cands = []
         for i in range(n):
             fr = cur['frags'][:i] + cur['frags'][i + 1:]
-            cands.append({'frags': fr, 'cls': cur['cls'], 'cfgs': Prop.all_schedules(base, len(fr))})
+            cands.append({'frags': fr, 'cls': cur['cls'], 'cfgs': Prop.all_schedules(base, len(fr)),
+                          'histories': Prop.std_histories(base, len(fr))})
         rs = self.run_impl_cases(cands)
         hit = None
         for cand, r in zip(cands, rs):
@@ -780,6 +893,7 @@ def _shrink(self, case, cfg, key):
             break
         cur = hit
     cur['cfgs'] = Prop.all_schedules(base, len(cur['frags']))
+    cur['histories'] = Prop.std_histories(base, len(cur['frags']))
     return cur
 
 
@@ -822,7 +936,11 @@ def _replay(self, data):
         return fw.PropBase.replay(self, data)
     inp = w['input']
     base = {k: inp['cfg'][k] for k in ('cache', 'radius', 'hd', 'yield_invalid')}
-    case = {'frags': inp['frags'], 'cls': inp['cls'], 'cfgs': Prop.all_schedules(base, len(inp['frags']))}
+    case = {'frags': inp['frags'], 'cls': inp['cls'], 'cfgs': Prop.all_schedules(base, len(inp['frags'])),
+            'histories': Prop.std_histories(base, len(inp['frags']))}
+    if 'ks' in inp['cfg']:
+        case['histories'].append({'cfg': {k: inp['cfg'][k] for k in ('cache', 'radius', 'hd', 'yield_invalid', 'every', 'pooling')},
+                                  'ks': inp['cfg']['ks']})
     r = self.run_impl_cases([case])[0]
     print('recorded: %s' % w.get('what'))
     print('fragments (id valid sample strand contig start end umi hash): %s' % json.dumps(r['abs']))
